@@ -1,0 +1,60 @@
+//go:build verif
+
+// Contracts for package bleve (root): alias merge/paging layer (read by /verif/gocv; comment-only
+// effect with the verif tag off).
+
+package bleve
+
+// ---------------------------------------------------------------------------
+// C09: searching an alias over shards equals searching one index
+// ---------------------------------------------------------------------------
+
+// The page of a sorted hit list: hits[From : min(From+Size, n)] (empty when From >= n).
+// This is what a single index returns for the same From/Size (C06), including Size == 0.
+//@ func hitsInCurrentPage
+//@   props C09
+//@   mode int
+//@   impure sortFunc
+//@   requires req != nil && req.Size >= 0 && req.From >= 0
+//@   ensures len(result) == ite(len(hits) - req.From > 0, ite(req.Size < len(hits) - req.From, req.Size, len(hits) - req.From), 0)
+//@   ensures implies(len(result) > 0, base(result) == base(hits) && offset(result) == offset(hits) + req.From)
+
+// A child request asks every shard for its top From+Size from the start, and is otherwise the
+// request itself (every field, taken from the struct type: a field added later must be handled).
+//@ func copySearchRequest
+//@   props C09
+//@   mode int
+//@   requires req != nil && req.Size >= 0 && req.From >= 0 && req.Size + req.From <= 4611686018427387904
+//@   ensures result != nil && fresh(result) && result.Size == req.Size + req.From && result.From == 0
+//@   ensures fieldsEqualExcept(result, req, Size, From, Sort, PreSearchData, Params, Explain, ClientContextID, sortFunc)
+//@   ensures result.Explain == req.Explain && len(result.Sort) == len(req.Sort)
+
+//@ func newSearchHitSorter
+//@   props C09
+//@   mode int
+//@   ensures result != nil && fresh(result) && result.hits == hits && result.sort == sort && len(result.cachedScoring) == len(sort) && len(result.cachedDesc) == len(sort)
+
+// The re-sort of the merged hits uses the same comparator as every shard (C06): Less(i,j) is
+// SortOrder.Compare(hits[i], hits[j]) < 0 on the request's sort order.
+//@ func searchHitSorter.Less
+//@   props C09
+//@   mode int
+//@   ghostlocal rc int = 0
+//@   requires m != nil && 0 <= i && i < len(m.hits) && 0 <= j && j < len(m.hits) && m.hits[i] != nil && m.hits[j] != nil
+//@   requires len(m.cachedScoring) >= len(m.sort) && len(m.cachedDesc) >= len(m.sort) && len(m.hits[i].Sort) >= len(m.sort) && len(m.hits[j].Sort) >= len(m.sort)
+//@   at call m.sort.Compare#0: assert recv == m.sort && arg0 == m.cachedScoring && arg1 == m.cachedDesc && arg2 == m.hits[i] && arg3 == m.hits[j]
+//@   at call m.sort.Compare#0 after: ghost rc = result
+//@   ensures result == (rc < 0)
+
+//@ func searchHitSorter.Len
+//@   props C09
+//@   mode int
+//@   requires m != nil
+//@   ensures result == len(m.hits)
+
+//@ func searchHitSorter.Swap
+//@   props C09
+//@   mode int
+//@   requires m != nil && 0 <= i && i < len(m.hits) && 0 <= j && j < len(m.hits)
+//@   modifies m.hits[*]
+//@   ensures m.hits[i] == old(m.hits[j]) && m.hits[j] == old(m.hits[i]) && forall(k, 0, len(m.hits), implies(k != i && k != j, m.hits[k] == old(m.hits[k])))
